@@ -222,5 +222,4 @@ def run(tier):
 
 
 def replay(path):
-    print(open(path).read())
-    return 0
+    return C.replay_by_rerun(PROP, path)
